@@ -8,6 +8,10 @@ mod proc;
 mod rfc;
 mod run;
 mod scen;
+mod scen_more;
+mod scen_srv;
+mod more_mon;
+mod srv_mon;
 mod world;
 mod xfer_mon;
 
@@ -16,6 +20,7 @@ use scen::Tier;
 use std::io::Write;
 
 extern "C" {
+    fn sched_setaffinity(pid: i32, cpusetsize: usize, mask: *const u64) -> i32;
     fn dup(fd: i32) -> i32;
     fn dup2(a: i32, b: i32) -> i32;
     fn open(path: *const u8, flags: i32, ...) -> i32;
@@ -31,6 +36,18 @@ fn silence_repo_output() -> std::fs::File {
         dup2(null, 1);
         dup2(null, 2);
         std::fs::File::from_raw_fd(keep)
+    }
+}
+
+/// Pins this process (and the threads it will spawn) to one CPU: the simulator runs one thread
+/// at a time, so hand-offs on a single core are much cheaper than cross-core wake-ups.
+fn pin_to_cpu(k: u64) {
+    let ncpu = std::thread::available_parallelism().map(|n| n.get() as u64).unwrap_or(1);
+    let cpu = k % ncpu;
+    let mut mask = [0u64; 16];
+    mask[(cpu / 64) as usize] = 1u64 << (cpu % 64);
+    unsafe {
+        sched_setaffinity(0, std::mem::size_of_val(&mask), mask.as_ptr());
     }
 }
 
@@ -58,7 +75,21 @@ fn install_panic_hook() {
 }
 
 fn arg_val(args: &[String], name: &str) -> Option<String> {
-    args.iter().position(|a| a == name).and_then(|i| args.get(i + 1).cloned())
+    let v = args.iter().position(|a| a == name).and_then(|i| args.get(i + 1).cloned());
+    // path arguments are made absolute: simulating processes change their working directory
+    if matches!(name, "--replay-dir" | "--evidence" | "--known" | "--ship" | "--chk") {
+        return v.map(|p| abs(&p));
+    }
+    v
+}
+
+fn abs(p: &str) -> String {
+    let pb = std::path::PathBuf::from(p);
+    if pb.is_absolute() {
+        p.to_string()
+    } else {
+        std::env::current_dir().map(|c| c.join(pb).to_string_lossy().into_owned()).unwrap_or_else(|_| p.to_string())
+    }
 }
 
 fn main() {
@@ -75,6 +106,8 @@ fn main() {
             let stop = !args.iter().any(|a| a == "--keep-going");
             let mut out = silence_repo_output();
             install_panic_hook();
+            common::enter_process_base();
+            pin_to_cpu(start);
             let t0 = std::time::Instant::now();
             let mut viol = 0;
             let mut shapes = std::collections::BTreeSet::new();
@@ -141,6 +174,8 @@ fn main() {
             };
             let mut out = silence_repo_output();
             install_panic_hook();
+            common::enter_process_base();
+            pin_to_cpu(a.start);
             proc::worker(a, &mut out);
         }
         "fp" => {
@@ -148,6 +183,7 @@ fn main() {
             let num = |n: &str, d: u64| arg_val(&args, n).and_then(|v| v.parse().ok()).unwrap_or(d);
             let mut out = silence_repo_output();
             install_panic_hook();
+            common::enter_process_base();
             proc::fingerprints(prop, proc::parse_tier(&arg_val(&args, "--tier").unwrap_or_default()), num("--seed", 1), num("--start", 0), num("--end", 100), &mut out);
         }
         "check" => {
@@ -172,7 +208,7 @@ fn main() {
             std::process::exit(proc::check(a));
         }
         "replay" => {
-            let path = std::path::PathBuf::from(args.get(2).expect("replay file"));
+            let path = std::path::PathBuf::from(abs(args.get(2).expect("replay file")));
             let ship = std::env::var("TFTPD_SIM_SHIP").ok().map(Into::into);
             let chk = std::env::var("TFTPD_SIM_CHK").ok().map(Into::into);
             let mut out = silence_repo_output();
@@ -183,6 +219,7 @@ fn main() {
                 dup2(out.as_raw_fd(), 1);
             }
             let _ = out.flush();
+            common::enter_process_base();
             let code = proc::replay(&path, ship, chk);
             common::cleanup_process_sandbox();
             std::process::exit(code);
@@ -199,6 +236,7 @@ fn main() {
             let mut bad = 0;
             let mut total = 0;
             for prop in props {
+                let n = if prop == "C15" { (n / 30).max(8) } else { n };
                 let whole = fp(prop, 0, n);
                 let mut parts: Vec<std::thread::JoinHandle<Vec<String>>> = vec![];
                 for k in 0..8u64 {
